@@ -30,7 +30,12 @@ fn hundredths(h: i64) -> String {
 
 pub fn spell_value(rec: &Value, rng: &mut Rng) -> String {
     let vi = geti(rec, "vi");
-    let pad = |s: String, rng: &mut Rng| if rng.chance(1, 3) { format!("  {s} ") } else { s };
+    // the value is the TRIMMED text: every Unicode white space counts (ideographic space, no-break space, vertical tab ...)
+    let pad = |s: String, rng: &mut Rng| match rng.below(6) {
+        0 => format!("  {s} "),
+        1 => format!("{}{s}", rng.pick(&["\u{3000}", "\u{a0}", "\u{b}", "\t", "\u{2003} "])),
+        _ => s,
+    };
     match gets(rec, "vc") {
         "int" => pad(format!("{vi}"), rng),
         "float" => pad(hundredths(vi), rng),
@@ -56,7 +61,7 @@ pub fn spell_kv(rec: &Value, rng: &mut Rng) -> String {
     if k == "#nocolon" {
         return "nocolonline".into();
     }
-    let sep = *rng.pick(&[":", ": ", " : ", ":  "]);
+    let sep = *rng.pick(&[":", ": ", " : ", ":  ", "\u{a0}:\u{3000}", "\t:\t"]);
     format!("{k}{sep}{}", spell_value(rec, rng))
 }
 
